@@ -11,6 +11,11 @@ export GIT_CONFIG_GLOBAL=/dev/null GIT_CONFIG_NOSYSTEM=1
 mode=plain
 if [ "${1:-}" = "C08" ]; then mode=maporder; fi
 mc=$(scripts/build.sh $mode) || { echo "check.sh: build failed (no verdict)" >&2; exit 2; }
+if [ "$mode" = maporder ]; then
+  # the plain binary (real runtime map order) is the conformance reference for the rewritten one
+  VERIF_PLAIN_MC=$(scripts/build.sh plain) || { echo "check.sh: build failed (no verdict)" >&2; exit 2; }
+  export VERIF_PLAIN_MC
+fi
 export VERIF_TIER=${2:-quick}
 if [ "${1:-}" = replay ]; then exec "$mc" replay "$2"; fi
 exec "$mc" check "$1" "${2:-quick}"
